@@ -87,9 +87,20 @@ impl<T> IpMatcher<T> {
         let mut routes = self.no_matcher.match_request(request);
 
         if let Some(remote_addr) = request.remote_addr.as_ref() {
+            let mut seen = HashSet::new();
+
             for (ip_cidr, matcher) in &self.matchers {
                 if ip_cidr.match_ip(remote_addr) {
-                    routes.extend(matcher.match_request(request));
+                    for route in matcher.match_request(request) {
+                        // A route with several ip constraints is stored once per constraint, it must match only once
+                        let has_many_ips = route.ips().map(|ips| ips.len() > 1).unwrap_or(false);
+
+                        if has_many_ips && !seen.insert(route.id().to_string()) {
+                            continue;
+                        }
+
+                        routes.push(route);
+                    }
                 }
             }
         }
